@@ -63,6 +63,10 @@ pub fn run_c05(seed: u64, n: usize, out: &mut Out) {
             if k == 2 && !live_optimized {
                 e_live.verif_blocker_mut().optimize();
                 live_optimized = true;
+            } else if k == 4 && live_optimized {
+                // optimising an already optimised engine fuses fused rules (AnyOf parts) again
+                e_live.verif_blocker_mut().optimize();
+                out.bump("re_optimized");
             }
             let a = e_opt.check_network_request(&q.req);
             let b = e_un.check_network_request(&q.req);
